@@ -14,6 +14,7 @@
 #undef private
 #undef protected
 #include "c17_group.hh"
+#include "c17_fork.hh"
 using namespace verif;
 
 // ---- recording stream pair -------------------------------------------------------------------------------------
@@ -134,7 +135,7 @@ static void report(const char *cls, const Grp &G, size_t i, bool faulty, bool fr
 		mpz_mul(t1, t1, t2); mpz_mod(t1, t1, G.p); okO = (mpz_cmp(t1, C) == 0);
 	}
 	// (3) a coin is returned exactly for matching in-range openings, and it is the sum
-	if (R.ret && !okO) propfail("bad-opening-accepted", "opening does not match the commitment but a coin was returned: " + ctx);
+	if (R.ret && !okO) propfail("bad-opening-accepted", "out-of-range or non-matching opening but a coin was returned: " + ctx);
 	if (!R.ret && okO) propfail("good-opening-refused", "well-formed matching opening refused: " + ctx);
 	if (R.ret && okO && !faulty) {
 		mpz_add(t1, R.a, a1); mpz_mod(t1, t1, G.q);
@@ -185,6 +186,72 @@ static Msg mutate_value(int mut, mpz_srcptr v, const Grp &G, bool is_commitment)
 	m = line(r); mpz_clear(r); return m;
 }
 
+// ---- n-party Flip: forked run as /repo/tests/t-astc.cc ------------------------------------------------------------
+static std::vector<std::string> split(const std::string &s, char c) {
+	std::vector<std::string> r; std::string cur; for (char x : s) { if (x == c) { r.push_back(cur); cur.clear(); } else cur += x; } r.push_back(cur); return r;
+}
+static unsigned long n_nparty = 0;
+static void nparty(const Grp &G, size_t n, size_t t, const std::vector<bool> &faulty, uint64_t seed) {
+	n_nparty++;
+	std::vector<bool> fr(n); for (size_t i = 0; i < n; i++) fr[i] = gen().coin();
+	ForkResult FR = fork_parties(n, t, seed, aiounicast::aio_timeout_long, 240, [&](size_t i, aiounicast *aiou, CachinKursawePetzoldShoupRBC *rbc, std::ostream &res) {
+		JareckiLysyanskayaEDCF edcf(n, t, G.p, G.q, G.g, G.h, mpz_sizeinbase(G.p, 2), mpz_sizeinbase(G.q, 2));
+		mpz_t a; mpz_init(a); std::ostringstream err;
+		script_ulong(fr[i] ? 1UL : 0UL);
+		bool ok = false; std::string exc;
+		try { ok = edcf.Flip(i, a, aiou, rbc, err, faulty[i]); } catch (std::exception &e) { exc = e.what(); }
+		res << "ret=" << (ok ? 1 : 0) << "\n" << "exc=" << exc << "\n" << "coin=" << hx(a) << "\n";
+		res << "a=" << hx(edcf.rvss->a_i) << "\n" << "hata=" << hx(edcf.rvss->hata_i) << "\n";
+		res << "qual="; for (size_t k = 0; k < edcf.rvss->Qual.size(); k++) res << (k ? "," : "") << edcf.rvss->Qual[k]; res << "\n";
+		res << "C="; for (size_t j = 0; j < n; j++) res << (j ? "," : "") << hx(edcf.rvss->C_ik[j][0]); res << "\n";
+	});
+	std::string fs; for (size_t i = 0; i < n; i++) fs += faulty[i] ? '1' : '0';
+	std::string ctx = "n=" + std::to_string(n) + " t=" + std::to_string(t) + " faulty=" + fs + " seed=" + std::to_string(seed) + " p=" + hx(G.p) + " q=" + hx(G.q) + " g=" + hx(G.g) + " h=" + hx(G.h);
+	if (FR.timed_out) { propfail("nparty-timeout", "n-party Flip did not finish within the wall-clock limit: " + ctx); return; }
+	// all honest parties: success, the same Qual, the same coin
+	std::string qual, coin; bool first = true;
+	for (size_t i = 0; i < n; i++) if (!faulty[i]) {
+		if (FR.status[i] != 0 || res_get(FR.text[i], "ret") != "1") {
+			propfail("nparty-honest-fails", "honest party " + std::to_string(i) + " failed (status " + std::to_string(FR.status[i]) + ", ret=" + res_get(FR.text[i], "ret") + " exc=" + res_get(FR.text[i], "exc") + "): " + ctx);
+			return;
+		}
+		if (first) { qual = res_get(FR.text[i], "qual"); coin = res_get(FR.text[i], "coin"); first = false; }
+		else if (qual != res_get(FR.text[i], "qual") || coin != res_get(FR.text[i], "coin")) {
+			propfail("nparty-coins-differ", "honest parties disagree: P" + std::to_string(i) + " coin=" + res_get(FR.text[i], "coin") + " qual=" + res_get(FR.text[i], "qual") + " vs coin=" + coin + " qual=" + qual + ": " + ctx);
+			return;
+		}
+	}
+	if (first) return;
+	// the coin is the sum of the committed shares of Qual (the committed share of a deviating member is reconstructed)
+	mpz_t sum, v; mpz_init(sum); mpz_init(v);
+	std::vector<std::string> Q = split(qual, ','); bool known = true;
+	for (auto &js : Q) { if (js.empty()) continue; size_t j = strtoul(js.c_str(), 0, 10);
+		std::string aj = res_get(FR.text[j], "a"); if (aj.empty()) { known = false; break; }
+		mpz_set_str(v, aj.c_str(), 16); mpz_add(sum, sum, v); mpz_mod(sum, sum, G.q); }
+	if (known && hx(sum) != coin) propfail("nparty-coin-not-sum", "coin " + coin + " is not the sum " + hx(sum) + " of the committed shares of Qual={" + qual + "}: " + ctx);
+	for (size_t i = 0; i < n; i++) if (!faulty[i]) {
+		bool inq = std::find(Q.begin(), Q.end(), std::to_string(i)) != Q.end();
+		if (!inq) propfail("nparty-honest-not-in-qual", "honest party " + std::to_string(i) + " is not in Qual={" + qual + "}: " + ctx);
+	}
+	// decision record per honest party: what every member of Qual broadcast (known from that member's own process), the commitment
+	// as stored by this party, the committed share as reconstruction result -> coin
+	if (known) for (size_t i = 0; i < n; i++) if (!faulty[i]) {
+		std::vector<std::string> Cs = split(res_get(FR.text[i], "C"), ',');
+		std::string members;
+		for (auto &js : Q) { if (js.empty()) continue; size_t j = strtoul(js.c_str(), 0, 10);
+			mpz_t aj, bj; mpz_init(aj); mpz_init(bj);
+			mpz_set_str(aj, res_get(FR.text[j], "a").c_str(), 16); mpz_set_str(bj, res_get(FR.text[j], "hata").c_str(), 16);
+			std::string rec = hx(aj);
+			if (faulty[j]) { mpz_add_ui(aj, aj, 1); if (fr[j]) mpz_add_ui(bj, bj, 1); }
+			if (!members.empty()) members += ";";
+			members += Cs[j] + "," + hx(aj) + "," + hx(bj) + "," + rec;
+			mpz_clear(aj); mpz_clear(bj); }
+		Rec("flipN").z(G.p).z(G.q).z(G.g).z(G.h).t(members.empty() ? "_" : members).t("coin:" + res_get(FR.text[i], "coin"));
+	}
+	mpz_clear(sum); mpz_clear(v);
+	fprintf(stderr, "c17: nparty %s wall=%.2fs\n", ctx.substr(0, 40).c_str(), FR.wall);
+}
+
 int main(int argc, char **argv) {
 	Args A(argc, argv);
 	if (!init_libTMCG()) { fprintf(stderr, "init_libTMCG failed\n"); return 2; }
@@ -193,6 +260,7 @@ int main(int argc, char **argv) {
 	if (T) { sizes.push_back({17, 33}); sizes.push_back({96, 192}); sizes.push_back({128, 256}); sizes.push_back({160, 384}); }
 	mpz_t x, y, C, t; mpz_init(x); mpz_init(y); mpz_init(C); mpz_init(t);
 	unsigned rounds = T ? 6 : 1;
+	if (A.only.empty() || A.only == "twoparty") {
 	for (unsigned rd = 0; rd < rounds; rd++)
 	for (size_t si = 0; si < sizes.size(); si++) {
 		Grp G; G.generate(sizes[si].first, sizes[si].second);
@@ -271,7 +339,28 @@ int main(int argc, char **argv) {
 			}
 		}
 	}
+	}
+	// ---- n-party Flip (forked) ----------------------------------------------------------------------------------
+	if (A.only.empty() || A.only.compare(0, 6, "nparty") == 0) {
+		unsigned part = 0, parts = 1;
+		if (A.only.size() > 7) sscanf(A.only.c_str() + 7, "%u/%u", &part, &parts);
+		Grp G; G.generate(32, 64);
+		struct Cfg { size_t n, t; std::vector<size_t> bad; };
+		std::vector<Cfg> cfgs;
+		if (!T) cfgs = { {2, 0, {}}, {3, 1, {}}, {3, 1, {(size_t)gen().below(3)}}, {5, 2, {1, 3}} };
+		else {
+			for (size_t n = 2; n <= 7; n++) { size_t t = (n - 1) / 2;
+				cfgs.push_back({n, t, {}});
+				for (size_t k = 1; k <= t; k++) for (int rep = 0; rep < 2; rep++) {
+					std::vector<size_t> bad; while (bad.size() < k) { size_t c = gen().below(n); if (std::find(bad.begin(), bad.end(), c) == bad.end()) bad.push_back(c); }
+					cfgs.push_back({n, t, bad}); } }
+		}
+		for (size_t ci = 0; ci < cfgs.size(); ci++) { Cfg &c = cfgs[ci];
+			std::vector<bool> f(c.n, false); for (size_t b : c.bad) f[b] = true;
+			uint64_t sd = gen().next() % 1000000;
+			if (ci % parts == part) nparty(G, c.n, c.t, f, sd); }
+	}
 	mpz_clear(x); mpz_clear(y); mpz_clear(C); mpz_clear(t);
-	fprintf(stderr, "c17: %lu runs\n", n_runs);
+	fprintf(stderr, "c17: %lu runs, %lu n-party runs\n", n_runs, n_nparty);
 	return 0;
 }
